@@ -487,7 +487,10 @@ impl Ctx {
         if let Some(v) = self.cast_memo.get(&t) {
             return *v;
         }
-        let m = if self.last_usize_cast >= 1 { self.max_index.min(self.last_usize_cast - 1) } else { self.max_index };
+        // the cast value indexes an axis whose last index was the most recent usize -> float cast (the lookup casts
+        // 0 and len-1 right before): every index 0..=len-1 is a possible guess - rounding can push the guess of a
+        // query just below the last knot onto len-1, which the real code tolerates (found by a seeded change)
+        let m = if self.last_usize_cast >= 1 { self.max_index.min(self.last_usize_cast) } else { self.max_index };
         // alternatives: 0..=m -> Some(k); m+1 -> None (cast fails); m+2 -> too big (mode R only)
         let arity = if self.mode == Mode::R { m + 3 } else { m + 2 };
         let mk = |i: usize| Lit {
